@@ -9,6 +9,7 @@ import (
 	"fmt"
 	"os"
 	"sort"
+	"strings"
 	"sync"
 	"testing"
 	"time"
@@ -115,7 +116,44 @@ func (w *workload) run(rt *rapid.T, c *vk.Case) {
 		}
 	}
 	flushEvery := rapid.SampledFrom([]int{0, 0, 3, 7}).Draw(rt, "flushEvery")
-	c.Descf("writers=%d txs=%d flushEvery=%d", writers, total, flushEvery)
+	// schedule perturbation: the durability round is slowed down at a generated kind of storage operation so that
+	// other committers get to run in the middle of it (between the fsyncs of the different logs)
+	perturb := rapid.SampledFrom([]string{"none", "vlog-sync", "vlog-sync-wait", "vlog-sync-wait", "vlog-flush", "tx-flush", "tx-sync", "commit-flush", "any-sync", "any-sync-wait"}).Draw(rt, "perturb")
+	delay := time.Duration(rapid.SampledFrom([]int{200, 1000, 3000}).Draw(rt, "perturbMicros")) * time.Microsecond
+	if perturb != "none" {
+		w.fs.Yield = func(log string, k fsim.Kind) {
+			hit := false
+			switch perturb {
+			case "vlog-sync":
+				hit = strings.HasPrefix(log, "val_") && k == fsim.Sync
+			case "vlog-flush":
+				hit = strings.HasPrefix(log, "val_") && k == fsim.Flush
+			case "tx-flush":
+				hit = log == "tx" && k == fsim.Flush
+			case "tx-sync":
+				hit = log == "tx" && k == fsim.Sync
+			case "commit-flush":
+				hit = log == "commit" && k == fsim.Flush
+			case "any-sync":
+				hit = k == fsim.Sync && !strings.HasPrefix(log, "index") && !strings.HasPrefix(log, "aht")
+			case "vlog-sync-wait", "any-sync-wait":
+				// hold the durability round at this fsync until some other committer made progress (a new tx got
+				// precommitted) or a bound expires: on correct code nothing can be precommitted meanwhile and the bound expires
+				if k == fsim.Sync && (strings.HasPrefix(log, "val_") || (perturb == "any-sync-wait" && (log == "tx" || log == "commit"))) {
+					p0 := st.LastPrecommittedTxID()
+					deadline := time.Now().Add(2 * delay)
+					for st.LastPrecommittedTxID() == p0 && time.Now().Before(deadline) {
+						time.Sleep(50 * time.Microsecond)
+					}
+				}
+			}
+			if hit {
+				time.Sleep(delay)
+			}
+		}
+		c.Label("perturb-" + perturb)
+	}
+	c.Descf("writers=%d txs=%d flushEvery=%d perturb=%s/%s", writers, total, flushEvery, perturb, delay)
 
 	var wg sync.WaitGroup
 	errs := make(chan error, writers)
